@@ -576,6 +576,16 @@ def correspond(case, res, chs, batch: Batch):
                       canon=lambda s: "/".join(",".join(x.split(",")[1:]) for x in s.split("/")) if s != "-" else "")
             chs["vgen"].count("timeline")
             chs["vgen"].nontrivial.add((rep["id"], "tl", case.key()))
+            if p0.get("tsbd_us") is not None:
+                short = any(re.fullmatch(r"(\S+: )?-?\d+ != -?\d+(\.\d+)?", e["msg"]) and
+                            "segment_timeline" in e["where"] for e in rep["own_errors"])
+                cfg = ",".join([M.b(rep["mode"] == "live"), M.opt(rep["target_us"]), str(p0["tsbd_us"]),
+                                str(rep["dash_ts"])])
+                batch.add(chs["vgen"], f"vtldepth {cfg} " + ("/".join(f"{t}:{d}" for t, d in ent) or "-"),
+                          "timelineShort" if short else "-", {**info, "rep": rep["id"], "what": "timeline depth"})
+                if short:
+                    chs["vgen"].count("timeline-shorter-than-buffer")
+                    model_err["n"] += 1
         elif rep["tmpl_duration"]:
             sd, ts = rep["tmpl_duration"], rep["dash_ts"]
             n = len(segs)
